@@ -24,6 +24,7 @@ Contracts on gear/gear/database.py (real source, re-read on every run):
 from __future__ import annotations
 
 import ast as pyast
+import os
 
 import z3
 
@@ -435,6 +436,16 @@ def scans(ctx):
     tt = pyvc.find_function(tree, 'transaction')
     rets = [pyast.unparse(n.value) for n in tt.body if isinstance(n, pyast.Return) and n.value is not None]
     ctx.add(core.decided('C27/transaction/returns-the-transformer', rets == ['transformer'], repr(rets), kind='scan'))
+    # ROLLBACK discards an attempt's writes only if the connection does not commit statements on its own: the pool the transactions
+    # draw from is created with autocommit off (with autocommit on, every statement issued after a server-side COMMIT - all batch
+    # procedures commit internally - would be committed immediately and survive the ROLLBACK of a failed or retried attempt)
+    ai = pyvc.find_function(tree, 'Database.async_init')
+    pools = [n for n in pyast.walk(ai) if isinstance(n, pyast.Call) and pyvc._dotted(n.func) == 'create_database_pool']
+    off = len(pools) == 1 and any(k.arg == 'autocommit' and isinstance(k.value, pyast.Constant) and k.value.value is False for k in pools[0].keywords)
+    cp = pyvc.find_function(tree, 'create_database_pool')
+    fwd = [k for n in pyast.walk(cp) if isinstance(n, pyast.Call) and pyvc._dotted(n.func) == 'aiomysql.create_pool' for k in n.keywords if k.arg == 'autocommit']
+    ctx.add(core.decided('C27/Database.async_init/transactions-run-on-connections-with-autocommit-off', off and len(fwd) == 1 and pyast.unparse(fwd[0].value) == 'autocommit', 'async_init: %r; create_database_pool forwards: %r' % ([pyast.unparse(p_) for p_ in pools], [pyast.unparse(k.value) for k in fwd]), kind='scan'))
+    ctx.under_contract(PATH, 'Database.async_init (autocommit off)')
     for name in DB_METHODS:
         fn = pyvc.find_function(tree, 'Database.' + name)
         ctx.add(core.decided('C27/Database.%s/decorated-by-the-retry-loop' % name, _decorators(fn) == ['retry_transient_mysql_errors'], repr(_decorators(fn)), kind='scan'))
